@@ -1,5 +1,5 @@
 # C14 — the mixer is linear: mute means silence, channels superpose, separation mirrors.
-import os, sys, json, struct
+import os, sys, json, struct, tempfile, shutil
 import vcommon as V
 
 SUR = 0x8000
@@ -145,6 +145,32 @@ def kernel_leg(ck, tier, replay):
         ck.proof_log = json.dumps(first_bad)[:6000]
     ck.engine_stat("kernels", **stats)
 
+def filter_modules(rng, d, n):
+    """generated IT modules (sample mode) in which channels take turns playing notes through resonant low-pass filters (Zxx cutoff and
+    resonance) and are stopped by note cuts, so that a voice slot freed by one channel is picked up by the next one's filtered note:
+    what a recycled voice inherits (filter history, ramp levels) must not depend on whether the previous owner was audible"""
+    sys.path.insert(0, os.path.join(V.VERIF, "gen"))
+    import modgen
+    out = []
+    for k in range(n):
+        chn = rng.choice((2, 2, 3, 4)); rows = 48
+        pat = modgen.empty_pattern(rows, chn)
+        r = 0; c = 0
+        while r < rows - 8:
+            note = rng.choice((49, 52, 56, 61, 64))
+            pat[r][c] = {'note': note, 'ins': 1, 'vol': rng.choice((64, 48, 32)), 'fx': ('raw', (26, rng.choice((0x20, 0x28, 0x30, 0x38, 0x50))))}
+            pat[r + 1][c] = {'fx': ('raw', (26, 0x80 | rng.choice((4, 8, 10, 15))))}
+            ln = rng.choice((4, 5, 6, 7))
+            pat[r + ln][c] = {'note': 254}
+            if rng.random() < 0.5 and chn > 2:
+                c2 = (c + 2) % chn
+                if pat[r + 2][c2] is None: pat[r + 2][c2] = {'note': rng.choice((37, 44)), 'ins': 1, 'vol': 40}
+            r += ln + rng.choice((0, 1, 1, 2)); c = (c + 1) % chn
+        song = {'chn': chn, 'orders': [0], 'patterns': [pat], 'speed': rng.choice((2, 3, 4)), 'bpm': 125, 'name': 'c14 filter %d' % k}
+        pth = os.path.join(d, "filter%02d.it" % k); open(pth, "wb").write(modgen.write_it(song)); out.append(pth)
+    return out
+
+
 SURVEY_CFGS = ("mute=ffffffffffffffff zonly", "mvol=0 zonly", "mute=ffffffffffffffff zonly repos=13")
 
 def main():
@@ -168,6 +194,9 @@ def main():
         pick += [f for f in files if os.path.basename(f) in ("DNA-NoInstr.it", "SwapNNA.it", "dct_smp_note_test.it", "duplicate_check_transpose.it", "it_fade_env_reset.it", "it_note_delay_nna.it", "portamento_nna_sample.it") and f not in pick]
         for f in pick:
             mods.append((f, rng.choice((8000, 11025, 22050, 44100)), 0, 50 if tier == "quick" else 120, rng.choice((0, 1, 2)), rng.choice((10, 30, 50, 70, 100))))
+        gendir = tempfile.mkdtemp(prefix="vp-c14-", dir="/var/tmp")
+        for f in filter_modules(rng, gendir, 8 if tier == "quick" else 120):
+            mods.append((f, rng.choice((22050, 44100)), 0, 70, rng.choice((1, 2)), rng.choice((30, 100))))
     stats = {"modules": 0, "solo_runs": 0, "frames_summed": 0, "samples_summed": 0, "gain_checks": 0, "skipped_many_channels": 0, "skipped_eviction_frames": 0,
              "sep_checked": 0, "sep_skipped_stereo_or_surround": 0, "silence_runs": 0, "clipped_samples_skipped": 0}
     for (path, rate, fmt, frames, interp, sepv) in mods:
@@ -327,6 +356,7 @@ def main():
                        "regenerated from the source on every run and must be the 40 bodies the kernel descriptions stand for (kernels_in_source_are_the_modelled_ones)")
     ck.assumptions += ["the per-voice kernels (interpolation, IT filter, anticlick ramp) are modelled on unbounded integers: the products stay inside int / int64 for the argument ranges mixer.c supplies (gains below 2^16, 16-bit samples), which is not proved; the Paula (A500) kernels of mix_paula.c are not modelled",
                        "frames in which the voice limit is reached are excluded, as the property says; int32 overflow of the accumulator is outside the model"]
+    if not replay: shutil.rmtree(gendir, ignore_errors=True)
     ck.finish()
 
 V.main_wrap(main)
